@@ -85,22 +85,17 @@ func BigBitLen(z *big.Int) int {
 	return n
 }
 
-// Cmp on magnitudes (non-negative values only)
+// Cmp on magnitudes (non-negative values only): two decisions on the zero-extended values
 func BigCmp(x, y *big.Int) int {
-	a, b := stripZeros(bigMag[x]), stripZeros(bigMag[y])
-	if len(a) != len(b) {
-		if len(a) < len(b) {
-			return -1
-		}
-		return 1
+	a, b := bigMag[x], bigMag[y]
+	if len(a) == 0 && len(b) == 0 {
+		return 0
 	}
-	for i := range a {
-		if a[i] != b[i] {
-			if a[i] < b[i] {
-				return -1
-			}
-			return 1
-		}
+	if vBytesLess(a, b) {
+		return -1
+	}
+	if vBytesLess(b, a) {
+		return 1
 	}
 	return 0
 }
